@@ -748,6 +748,13 @@ def check_balance(scn, res):
             if eph == 0 and (fs.get(up, {}).get('config') or {}).get('outputs_balance'):
                 workers[f['name']] = f'ipc://{full}'
 
+    # a branch without any synchronized worker (only '?' / '??' listeners, or nobody) is never given a frame
+    for t, kind, addr in ev:
+        if kind == 0 and addr not in workers.values():
+            bad('frame-sent-to-branch-without-worker', f'a frame was published at {t} ms on branch {addr}, which has no synchronized consumer '
+                f'(branches with workers: {sorted(workers.values())}): it is lost to the synchronized stream')
+            break
+
     for e in res.log:
         if e['ev'] == 'process' and e['f'] in workers and e['inp']:
             ev.append((e['t'], 1, workers[e['f']]))
